@@ -90,10 +90,14 @@ CLAIMED.update({
             "integrate_time_series_slice = trapezoid integral of the year's slice normalised to one year x utilization, "
             "annual_electricity_pumping_power and the three direct-use plants fill every annual series with exactly that "
             "integral of the corresponding power (net electricity integrates NET power), remaining heat = initial - "
-            "cumulative extracted. Symbolic series length, lifetime, steps per year.",
+            "cumulative extracted. Symbolic series length, lifetime, steps per year. "
+            "The four power-plant Calculate functions (sub/supercritical ORC, single/double flash x 7 end-uses) are "
+            "under contract: net electricity = gross - pumping power at every step, the injection temperature the plant "
+            "writes back is the one the heat balance uses, annual series are the integrals of the corresponding power.",
             TRUSTED + "Years with a single data point (code's extrapolation rule) are excluded by precondition and not "
-            "decided; ORC/flash plant Calculate functions (net = gross - pumping), district heating and the "
-            "availability/efficiency correlations are not yet under contract.", "DESIGN.md section 4 C02"),
+            "decided; the availability / efficiency / reinjection-temperature correlations carry weak contracts (value "
+            "ranges only) and are not checked against anything; the district-heating plant and the SUTRA / CLGS plants "
+            "are not under contract.", "DESIGN.md section 4 C02"),
     "C17": ("proof", TECH,
             "HIP_RA_X.Calculate: volumes are the porosity fractions, stored = rock + fluid, available <= stored and "
             "0 <= producible <= available (under T_res > T_rej and stated facts on the uninterpreted water properties); "
@@ -112,10 +116,14 @@ CLAIMED.update({
             "the depth is reduced only as needed (T = Tmax exactly when reduced; unchanged when already cool enough). "
             "TDPReservoir.Calculate (through the parent's contract): history starts at BHT, never exceeds it and never "
             "rises (for BHT >= injection temperature). Ground obligation: the default depth reaches Calculate in metres "
-            "(defect found and fixed, see known_findings.json).",
-            TRUSTED + "Single-fracture history, the drawdown-limit / redrilling tiling clause in WellBores.Calculate and "
-            "models 1-2 (start-at-BHT) are not yet under contract; monotonicity is claimed only for Trock >= Tinj "
-            "(complement recorded as finding F3 in DESIGN.md).", "DESIGN.md section 4 C05"),
+            "(defect found and fixed, see known_findings.json). "
+            "WellBores.Calculate (6 configurations): the series keep their "
+            "length, and with a drawdown limit the produced temperature never falls below limit x initial temperature "
+            "(redrilling tiles the series - lemma tiling_covers_the_series).",
+            TRUSTED + "Single-fracture, multiple-parallel-fractures, linear-heat-sweep, SBT, SUTRA and TOUGH2 histories "
+            "(start-at-BHT, never above BHT) are not under contract - only the percentage-drawdown model is; Ramey's "
+            "wellbore heat loss carries a weak contract; monotonicity is claimed only for Trock >= Tinj (complement "
+            "recorded as finding F3 in DESIGN.md).", "DESIGN.md section 4 C05"),
 })
 
 CLAIMED.update({
@@ -139,10 +147,13 @@ CLAIMED.update({
             "do not decrease when capital cost or O&M increases (positive energy, 144 configurations); total capital cost "
             "and total O&M of the real Economics.Calculate do not decrease when any of 13 additive cost inputs rises "
             "(self-composition on the 700-line function, 5 configurations; one recorded finding: chiller cost under a "
-            "user-fixed plant cost lowers O&M).",
+            "user-fixed plant cost lowers O&M); NPV of CalculateFinancialPerformance does not increase when every year's "
+            "cash flow is lowered by an arbitrary non-negative amount (both discounting conventions, rate >= 0).",
             TRUSTED + "Self-composition assumes callees under contract and array extrema are deterministic functions of "
-            "their arguments. Not decided: initial production temperature vs flow (Ramey, needs an analytic lemma), NPV "
-            "monotonicity itself (NPV is an uninterpreted library function of the series), adjustment FACTORS, BICYCLE "
+            "their arguments. 'NPV does not increase when a cost input increases' is decided link by link (cost input -> "
+            "CCap/Coam; C04: yearly cash flow = -CCap/cy or revenue - Coam; lower series -> lower NPV), the composition "
+            "of the three contracts is an argument in DESIGN.md, not one machine-checked obligation. Not decided: "
+            "initial production temperature vs flow (Ramey, needs an analytic lemma), adjustment FACTORS, BICYCLE "
             "levelized costs, 3/4-segment gradient monotonicity.", "DESIGN.md section 4 C18"),
 })
 
